@@ -98,13 +98,14 @@ structure SizeAll (f : Nat) : Prop where
   updates : ∀ r s r', propagateUpdates f r s = .ok r' → r.nodes.size ≤ r'.nodes.size
   dnode : ∀ r id r', disposeNode f r id = .ok r' → r.nodes.size ≤ r'.nodes.size
   dchildren : ∀ r id r', disposeChildren f r id = .ok r' → r.nodes.size ≤ r'.nodes.size
+  rest : ∀ r id r', disposeRest f r id = .ok r' → r.nodes.size ≤ r'.nodes.size
   cleanups : ∀ r cls r', runCleanups f r cls = .ok r' → r.nodes.size ≤ r'.nodes.size
   dlist : ∀ r cs r', disposeList f r cs = .ok r' → r.nodes.size ≤ r'.nodes.size
 
 theorem sizeAll_zero : SizeAll 0 := by
   constructor <;> intros <;> simp_all [execBody, execInner, execStmt, runClosure, createSelector,
     runNodeUpdate, propagateLoop, propagateNodeUpdates, propagateUpdates, disposeNode, disposeChildren,
-    runCleanups, disposeList]
+    disposeRest, runCleanups, disposeList]
 
 section step
 variable {f : Nat} (ih : SizeAll f)
@@ -172,11 +173,26 @@ theorem size_dnode (r : Root) (id : Id) (r' : Root)
   split at hx
   · cases hx
   · rename_i r1 h1
-    simp only [Except.ok.injEq] at hx
-    subst hx
-    have := ih.dchildren _ _ _ h1
-    rw [size_unsubscribe] at this
-    rw [size_removeNode]; exact this
+    split at hx
+    · cases hx
+    · rename_i r1' h1'
+      simp only [Except.ok.injEq] at hx
+      subst hx
+      have := ih.dchildren _ _ _ h1
+      rw [size_unsubscribe] at this
+      rw [size_removeNode]; exact Nat.le_trans this (ih.rest _ _ _ h1')
+
+theorem size_rest (r : Root) (id : Id) (r' : Root)
+    (hx : disposeRest (f + 1) r id = .ok r') : r.nodes.size ≤ r'.nodes.size := by
+  simp only [disposeRest] at hx
+  split at hx
+  · simp only [Except.ok.injEq] at hx; subst hx; exact Nat.le_refl _
+  · split at hx
+    · simp only [Except.ok.injEq] at hx; subst hx; exact Nat.le_refl _
+    · split at hx
+      · cases hx
+      · rename_i r1 h1
+        exact Nat.le_trans (ih.dchildren _ _ _ h1) (ih.rest _ _ _ hx)
 
 theorem size_dchildren (r : Root) (id : Id) (r' : Root)
     (hx : disposeChildren (f + 1) r id = .ok r') : r.nodes.size ≤ r'.nodes.size := by
@@ -324,7 +340,8 @@ theorem sizeAll : ∀ f, SizeAll f
     { body := size_body ih, inner := size_inner ih, stmt := size_stmt ih, closure := size_closure ih,
       selector := size_selector ih, update := size_update ih, loop := size_loop ih,
       nodeUpdates := size_nodeUpdates ih, updates := size_updates ih, dnode := size_dnode ih,
-      dchildren := size_dchildren ih, cleanups := size_cleanups ih, dlist := size_dlist ih }
+      dchildren := size_dchildren ih, rest := size_rest ih, cleanups := size_cleanups ih,
+      dlist := size_dlist ih }
 
 /-- `disposeNode` never shrinks the arena, whatever the start state is -/
 theorem disposeNode_size_le {fuel : Nat} {r r' : Root} {id : Id} (h : disposeNode fuel r id = .ok r') :
